@@ -95,11 +95,12 @@ def e_step(data, means):
     for i in range(n_clusters):
         first_order_statistics[i] = np.sum(data[closest_k_indices == i], axis=0)
     min_distance = np.min(distances, axis=0)
-    average_min_distance = min_distance.mean()
+    # Sum (not mean) of the block: m_step divides the total by n_samples
+    sum_min_distance = min_distance.sum()
     return (
         zeroeth_order_statistics,
         first_order_statistics,
-        average_min_distance,
+        sum_min_distance,
     )
 
 
